@@ -133,6 +133,9 @@ def oracle(ctx):
         base = {'d0/' + n: fs[n] for n in names}
         base.update({'d0/' + n + '.d/10-own.conf': t for n, t in drop.items()})
         extra = dict(base)
+        # (unrelated units whose file names are what some Volume= of the set calls a *volume*: nothing refers to them)
+        extra.update({'d0/lookalike.image': '[Image]\nImage=quay.io/x/la\n', 'd0/lookalike.network': '[Network]\n', 'd0/lookalike.pod': '[Pod]\n',
+                      'd0/lookalike.build': '[Build]\nImageTag=localhost/la\nFile=/opt/Containerfile\n'})
         for n, t in rnd.sample(EXTRA, rnd.randint(1, 4)):
             extra['d0/' + n] = t
         # unrelated units whose drop-ins fail to load, one found early and one late in a sorted listing
